@@ -92,8 +92,12 @@ def written_vars(body):
       op = n.get("opcode", "")
       if op == "=" or (op.endswith("=") and op not in ("==", "!=", "<=", ">=")):
         out.add(_decl_id(kids[0]))
-    elif k == "UnaryOperator" and n.get("opcode") in ("++", "--", "&") and kids:
+    elif k == "UnaryOperator" and n.get("opcode") in ("++", "--") and kids:
       out.add(_decl_id(kids[0]))
+    elif k == "UnaryOperator" and n.get("opcode") == "&" and kids:
+      # the address of a const object cannot be used to change it
+      if not cxx.qual_type(strip(kids[0]) or {}).lstrip().startswith("const "):
+        out.add(_decl_id(kids[0]))
     elif k == "CXXOperatorCallExpr" and len(kids) > 1:
       c = strip(kids[0])
       nm = (c.get("referencedDecl") or {}).get("name", "") if c else ""
@@ -138,8 +142,9 @@ def once_bound_env(ix, fn, env=None):
   variable, is a reference (an alias of the designated object), or is a
   const / pointer / iterator / scalar local that is never assigned, never
   incremented, never has its address taken and never is the object of a
-  mutating member call.  Initialisers are treated as pure expressions (the
-  getters they call are const)."""
+  mutating member call - and whose initialiser reads no variable that is
+  itself written in the function.  Initialisers are treated as pure
+  expressions (the getters they call are const)."""
   env = dict(env or {})
   if fn.body is None:
     return env
@@ -159,8 +164,23 @@ def once_bound_env(ix, fn, env=None):
     u = uncast(t)
     if not isinstance(u, tuple) or u[0] == "?":
       continue
+    if _free_vars(t) & written:
+      continue      # the initialiser reads something that changes later
     env[n["id"]] = t
   return env
+
+
+def _free_vars(t):
+  out = set()
+  todo = [t]
+  while todo:
+    x = todo.pop()
+    if isinstance(x, tuple):
+      if len(x) == 3 and x[0] == "var":
+        out.add(x[2])
+      else:
+        todo.extend(x)
+  return out
 
 
 def local_callee(ix, call, files=LOCAL_FILES):
@@ -274,3 +294,30 @@ def range_for(s):
 
 def var_of(decl):
   return ("var", decl.get("name"), decl["id"])
+
+
+def path_conditions(ix, fn, node, env):
+  """[(condition term, polarity)] of the `if` statements of fn enclosing
+  `node`: polarity True when node is in the then-branch."""
+  path = []
+
+  def find(n):
+    if n is node:
+      return True
+    for c in inner(n):
+      if c.get("kind") and find(c):
+        path.append((n, c))
+        return True
+    return False
+  if fn.body is None or not find(fn.body):
+    return None
+  out = []
+  for parent, child in reversed(path):
+    if parent.get("kind") != "IfStmt":
+      continue
+    _, _, cond, then, els = if_parts(parent)
+    if child is then:
+      out.append((uncast(term(ix, cond, env)), True))
+    elif els is not None and child is els:
+      out.append((uncast(term(ix, cond, env)), False))
+  return out
